@@ -895,6 +895,22 @@ pub fn c19_f1_signature(run: &Run, b: &engine::BuildRec, msg: &str) -> bool {
   }
 }
 
+/// Read-side companion of `c19_f1_signature` (finding C20-F6): a task executing in a bottom-up build (or in a require of the
+/// same session) after an earlier abort reads a generated resource, and its requires so far lead to a task whose last
+/// execution was aborted in an earlier build - that task lost the requires through which the generator used to be reached,
+/// and a bottom-up build neither schedules nor executes it.
+pub fn c20_f6_signature(run: &Run, b: &engine::BuildRec, msg: &str) -> bool {
+  if crate::analyze::panic_kind(msg) != crate::analyze::PanicKind::HiddenRead { return false; }
+  let reader = msg.split("current executing task 'T").nth(1).and_then(|x| x.split('\'').next()).and_then(|x| x.parse::<u8>().ok());
+  let Some(s) = reader else { return false; };
+  // Shadow record just before this build was cut: tasks on the stack are executing now, other incomplete tasks were
+  // aborted by an earlier build.
+  let mut sh = crate::model::Shadow::default();
+  let end = (b.log.start..b.log.end).rev().find(|i| matches!(run.log[*i], crate::interp::L::Aborted)).unwrap_or(b.log.end);
+  for l in &run.log[..end] { sh.feed(l); }
+  sh.last.iter().any(|(y, e)| !e.complete && !sh.stack.contains(y) && *y != s && sh.reaches(s, *y))
+}
+
 /// Crash-point enumeration: for sampled cases, abort the designated build at every one of its operation points.
 fn c19_extra(spec: &Spec, tier: Tier, seed: u64, known: &Known, report: &mut Report) {
   use proptest::strategy::{Strategy, ValueTree};
